@@ -331,6 +331,7 @@ type Task struct {
 	Done     bool
 	Aborted  bool
 	Panic    string
+	Finished bool // set by the root goroutine after the run (inside the bubble)
 	finished chan struct{}
 }
 
